@@ -789,3 +789,172 @@ Theorem kekule_driver_examples :
   | Err _ => false
   end = true.
 Proof. vm_compute. repeat split; reflexivity. Qed.
+
+(* ------------------------------------------------------------------------------------------------
+   8. shape of the result of __prepare_rings
+   ------------------------------------------------------------------------------------------------ *)
+(* the atom loop only ever adds the atoms it walks *)
+Lemma atom_loop_subset g qdb : forall ks pyr db pyr' db',
+  atom_loop g ks qdb pyr db = Ok (pyr', db') ->
+  (forall n, In n pyr' -> In n pyr \/ In n ks) /\ (forall n, In n db' -> In n db \/ In n ks).
+Proof.
+  induction ks as [|k r IH]; intros pyr db pyr' db' E; simpl in E.
+  - injection E as E1 E2. subst. split; intros n H; left; exact H.
+  - destruct (atom_of g k) as [a|]; [|discriminate].
+    destruct (classify_atom _ _ _ _ _ _) as [[p d]|]; [|discriminate].
+    apply IH in E. destruct E as [E1 E2]. split; intros n H.
+    + apply E1 in H. destruct H as [H|H]; [|right; right; exact H].
+      destruct p; [|left; exact H]. apply in_app_or in H. destruct H as [H|[H|[]]]; [left; exact H|right; left; exact H].
+    + apply E2 in H. destruct H as [H|H]; [|right; right; exact H].
+      destruct (d && negb (zmem k qdb)); [|left; exact H].
+      apply in_app_or in H. destruct H as [H|[H|[]]]; [left; exact H|right; left; exact H].
+Qed.
+
+(* shape of every successful __prepare_rings result: every skeleton atom has two or three skeleton neighbours, pyrroles and
+   double_bonded are atoms of the skeleton *)
+Theorem prepare_rings_shape : forall g sssr p, prepare_rings g sssr = Ok p ->
+  (forall n ms, In (n, ms) (r_rings p) -> List.length ms = 2%nat \/ List.length ms = 3%nat) /\
+  (forall n, In n (r_pyrroles p) -> In n (keys (r_rings p))) /\
+  (forall n, In n (r_double p) -> In n (keys (r_rings p))).
+Proof.
+  intros g sssr p E. unfold prepare_rings in E.
+  destruct (scan_ord g 4) as [|x0 r0] eqn:S4.
+  - injection E as E. subst p. simpl. repeat split; intros; contradiction.
+  - destruct (existsb _ (triple_bonded g)); [discriminate|].
+    destruct (fold_left unring_step _ _) as [[seen rings] singled] eqn:U.
+    destruct (existsb _ rings) eqn:D23; [discriminate|].
+    match type of E with (if ?c then _ else _) = _ => destruct c eqn:Q2; [discriminate|] end.
+    match type of E with (if ?c then _ else _) = _ => destruct c eqn:Q3; [discriminate|] end.
+    match type of E with context [atom_loop g (keys rings) ?q [] ?q] => set (qdb := q) in * end.
+    destruct (atom_loop g (keys rings) qdb [] qdb) as [[pyr db]|] eqn:L; [|discriminate].
+    injection E as E. subst p. simpl.
+    apply atom_loop_subset in L. destruct L as [L1 L2]. repeat split.
+    + intros n ms I.
+      assert (F := D23). rewrite <- not_true_iff_false in F.
+      destruct (Nat.eq_dec (List.length ms) 2) as [A|A]; [left; exact A|].
+      destruct (Nat.eq_dec (List.length ms) 3) as [B|B]; [right; exact B|].
+      exfalso. apply F. apply existsb_exists. exists (n, ms). split; [exact I|]. simpl.
+      destruct (Z.of_nat (List.length ms) =? 2) eqn:E2; [apply Z.eqb_eq in E2; lia|].
+      destruct (Z.of_nat (List.length ms) =? 3) eqn:E3; [apply Z.eqb_eq in E3; lia|]. reflexivity.
+    + intros n H. apply L1 in H. destruct H as [[]|H]. exact H.
+    + intros n H. apply L2 in H. destruct H as [H|H]; [|exact H].
+      (* quinone atoms: keys of p_dbl filtered on membership in rings *)
+      unfold qdb in H. unfold keys in H. apply in_map_iff in H. destruct H as [[k l] [Hk Hf]]. simpl in Hk. subst k.
+      apply filter_In in Hf. destruct Hf as [_ Hf]. simpl in Hf. destruct l; [discriminate|].
+      unfold al_has in Hf. destruct (zget rings n) eqn:Z; [|discriminate].
+      clear - Z. induction rings as [|[k v] r IH]; simpl in *; [discriminate|].
+      destruct (n =? k) eqn:Ek; [apply Z.eqb_eq in Ek; left; symmetry; exact Ek|right; apply IH; exact Z].
+Qed.
+
+(* ------------------------------------------------------------------------------------------------
+   9. the specifications do not depend on the atom numbering
+   ------------------------------------------------------------------------------------------------ *)
+Definition ren_nbl (pi : Z -> Z) (l : nbl) : nbl := map (fun mb => (pi (fst mb), snd mb)) l.
+Definition rename (pi : Z -> Z) (g : mol) : mol :=
+  mkMol (map (fun na => (pi (fst na), snd na)) (m_atoms g))
+        (map (fun nl => (pi (fst nl), ren_nbl pi (snd nl))) (m_adj g)).
+
+Section Rename.
+Variable pi : Z -> Z.
+Hypothesis pi_inj : forall x y, pi x = pi y -> x = y.
+
+Lemma pi_eqb x y : (pi x =? pi y) = (x =? y).
+Proof.
+  destruct (x =? y) eqn:E.
+  - apply Z.eqb_eq in E. subst. apply Z.eqb_refl.
+  - apply Z.eqb_neq. intros H. apply pi_inj in H. apply Z.eqb_neq in E. contradiction.
+Qed.
+
+Lemma forallb2_map_both {A B A' B' : Type} (f : A' -> B' -> bool) (f0 : A -> B -> bool) (p : A -> A') (q : B -> B') :
+  (forall x y, f (p x) (q y) = f0 x y) -> forall l l', forallb2 f (map p l) (map q l') = forallb2 f0 l l'.
+Proof.
+  intros H l. induction l as [|x r IH]; intros [|y s]; simpl; auto. rewrite H, IH. reflexivity.
+Qed.
+
+Lemma forallb2_ext {A B : Type} (f f0 : A -> B -> bool) :
+  (forall x y, f x y = f0 x y) -> forall l l', forallb2 f l l' = forallb2 f0 l l'.
+Proof.
+  intros H l. induction l as [|x r IH]; intros [|y s]; simpl; auto. rewrite H, IH. reflexivity.
+Qed.
+
+Lemma countb_ren (f : Z * bond -> bool) (l : nbl) :
+  (forall k b, f (pi k, b) = f (k, b)) -> countb f (ren_nbl pi l) = countb f l.
+Proof.
+  intros H. induction l as [|[k b] r IH]; simpl; auto. rewrite H, IH. reflexivity.
+Qed.
+
+Lemma arom_deg_ren l : arom_deg (ren_nbl pi l) = arom_deg l.
+Proof. unfold arom_deg. apply countb_ren. reflexivity. Qed.
+
+Lemma neighbors_ren l : neighbors (ren_nbl pi l) = neighbors l.
+Proof. unfold neighbors. apply countb_ren. reflexivity. Qed.
+
+Lemma has_ord_ren o l : has_ord o (ren_nbl pi l) = has_ord o l.
+Proof. unfold has_ord. induction l as [|[k b] r IH]; simpl; auto. rewrite IH. reflexivity. Qed.
+
+Lemma moved_ren o o' : forall l l', moved o o' (ren_nbl pi l) (ren_nbl pi l') = moved o o' l l'.
+Proof.
+  intros l. induction l as [|[k b] r IH]; intros [|[k' b'] s]; simpl; auto. rewrite IH. reflexivity.
+Qed.
+
+Lemma zget_ren {V : Type} (l : list (Z * V)) n : zget (map (fun na => (pi (fst na), snd na)) l) (pi n) = zget l n.
+Proof.
+  induction l as [|[k v] r IH]; simpl; auto. rewrite pi_eqb, IH. reflexivity.
+Qed.
+
+Lemma atom_of_ren g n : atom_of (rename pi g) (pi n) = atom_of g n.
+Proof. unfold atom_of, rename. simpl. apply zget_ren. Qed.
+
+Lemma atom_class_ren g n l : atom_class (rename pi g) (pi n) (ren_nbl pi l) = atom_class g n l.
+Proof.
+  unfold atom_class. rewrite atom_of_ren. destruct (atom_of g n); auto.
+  rewrite !has_ord_ren, neighbors_ren. reflexivity.
+Qed.
+
+Lemma nbl_step_ren l l' : nbl_step (ren_nbl pi l) (ren_nbl pi l') = nbl_step l l'.
+Proof.
+  unfold nbl_step, ren_nbl. apply forallb2_map_both. intros [k b] [k' b']. simpl. rewrite pi_eqb. reflexivity.
+Qed.
+
+Lemma th_nbl_step_ren l l' : th_nbl_step (ren_nbl pi l) (ren_nbl pi l') = th_nbl_step l l'.
+Proof.
+  unfold th_nbl_step, ren_nbl. apply forallb2_map_both. intros [k b] [k' b']. simpl. rewrite pi_eqb. reflexivity.
+Qed.
+
+Theorem kekule_rel_rename : forall g g', kekule_rel (rename pi g) (rename pi g') = kekule_rel g g'.
+Proof.
+  intros g g'. unfold kekule_rel, kekule_rel_noh, kekule_rel_core.
+  assert (A : kr_atoms (rename pi g) (rename pi g') = kr_atoms g g').
+  { unfold kr_atoms, rename. simpl. apply forallb2_map_both. intros [k a] [k' a']. simpl. rewrite pi_eqb. reflexivity. }
+  assert (B : kr_bonds (rename pi g) (rename pi g') = kr_bonds g g').
+  { unfold kr_bonds, rename. simpl. apply forallb2_map_both. intros [k l] [k' l']. simpl. rewrite pi_eqb, nbl_step_ren. reflexivity. }
+  assert (C : kr_classes (rename pi g) (rename pi g') = kr_classes g g').
+  { unfold kr_classes. change (m_adj (rename pi g)) with (map (fun nl => (pi (fst nl), ren_nbl pi (snd nl))) (m_adj g)).
+    change (m_adj (rename pi g')) with (map (fun nl => (pi (fst nl), ren_nbl pi (snd nl))) (m_adj g')).
+    apply forallb2_map_both. intros [k l] [k' l']. simpl.
+    rewrite arom_deg_ren, atom_class_ren. unfold new_doubles. rewrite moved_ren. reflexivity. }
+  assert (V : kr_valence (rename pi g) (rename pi g') = kr_valence g g').
+  { unfold kr_valence. change (m_adj (rename pi g)) with (map (fun nl => (pi (fst nl), ren_nbl pi (snd nl))) (m_adj g)).
+    induction (m_adj g) as [|[k l] r IH]; simpl; auto. rewrite arom_deg_ren, atom_of_ren, IH. reflexivity. }
+  assert (H : kr_h (rename pi g) (rename pi g') = kr_h g g').
+  { unfold kr_h, rename. simpl. apply forallb2_map_both. intros [k a] [k' a']. reflexivity. }
+  rewrite A, B, C, V, H. reflexivity.
+Qed.
+
+Theorem thiele_rel_rename : forall g g', thiele_rel (rename pi g) (rename pi g') = thiele_rel g g'.
+Proof.
+  intros g g'. unfold thiele_rel, thiele_rel_noh, thiele_rel_core.
+  assert (A : tr_atoms (rename pi g) (rename pi g') = tr_atoms g g').
+  { unfold tr_atoms, rename. simpl. apply forallb2_map_both. intros [k a] [k' a']. simpl. rewrite pi_eqb. reflexivity. }
+  assert (B : tr_bonds (rename pi g) (rename pi g') = tr_bonds g g').
+  { unfold tr_bonds, rename. simpl. apply forallb2_map_both. intros [k l] [k' l']. simpl. rewrite pi_eqb, th_nbl_step_ren. reflexivity. }
+  assert (D : tr_doubles (rename pi g) (rename pi g') = tr_doubles g g').
+  { unfold tr_doubles, rename. simpl. apply forallb2_map_both. intros [k l] [k' l']. simpl. unfold old_doubles. rewrite moved_ren. reflexivity. }
+  assert (Q : tr_quinone (rename pi g) (rename pi g') = tr_quinone g g').
+  { unfold tr_quinone, rename. simpl. apply forallb2_map_both. intros [k l] [k' l']. simpl. unfold gained_arom.
+    rewrite !moved_ren, has_ord_ren. reflexivity. }
+  assert (H : tr_h (rename pi g) (rename pi g') = tr_h g g').
+  { unfold tr_h, rename. simpl. apply forallb2_map_both. intros [k a] [k' a']. reflexivity. }
+  rewrite A, B, D, Q, H. reflexivity.
+Qed.
+End Rename.
